@@ -129,11 +129,9 @@ pub fn merge_map(entries: &[(String, Val)], path: &mut Vec<String>) -> Result<BT
         let has_ord = members.iter().any(|m| m.1);
         let distinct_forms: BTreeSet<(bool, Form)> = members.iter().map(|m| (m.1, m.2)).collect();
         if members.len() == 1 {
-            // a lone suffixed key stays what it is (a lone `_other` may also be merged: Unspecified)
-            let (k, _, form, v) = members.into_iter().next().unwrap();
-            if form == Form::Other {
-                return Err(MergeErr::Unspecified(p));
-            }
+            // a lone suffixed key - `_other` included - has nothing to be merged with: it stays the key it is
+            // written as (it is never dropped)
+            let (k, _, _form, v) = members.into_iter().next().unwrap();
             plain.insert(k, if v == Val::Null { MV::Null } else { MV::Val(v) });
             continue;
         }
